@@ -405,15 +405,19 @@ pub fn check(id: &str, tier: &str) -> i32 {
     // ---- determinism self-check: the same run indices in two process layouts ----------------
     let mut sc_compared = 0u64;
     let mut sc_mismatch = 0u64;
+    let mut sc_benign = 0u64;
     let mut sc_violations: Vec<Violation> = vec![];
     if selfcheck > 0 && std::env::var("VERIF_NO_SELFCHECK").is_err() {
         let a = spawn_workers(&e, tier, seed, 1.min(n), selfcheck, deadline, Some(selfcheck));
         let b = spawn_workers(&e, tier, seed, n.min(selfcheck), selfcheck, deadline, Some(selfcheck));
         let mut da: BTreeMap<u64, u64> = BTreeMap::new();
         let mut db: BTreeMap<u64, u64> = BTreeMap::new();
+        let mut oa: BTreeMap<u64, u64> = BTreeMap::new();
+        let mut ob: BTreeMap<u64, u64> = BTreeMap::new();
         for r in a {
             if let Some(s) = r.stats {
                 da.extend(s.digests);
+                oa.extend(s.outcome_digests);
                 harness_errors.extend(s.harness_errors);
             }
             sc_violations.extend(r.violations);
@@ -421,15 +425,25 @@ pub fn check(id: &str, tier: &str) -> i32 {
         for r in b {
             if let Some(s) = r.stats {
                 db.extend(s.digests);
+                ob.extend(s.outcome_digests);
             }
         }
         for (g, d) in &da {
             if let Some(d2) = db.get(g) {
                 sc_compared += 1;
                 if d != d2 {
-                    sc_mismatch += 1;
-                    if sc_mismatch <= 3 {
-                        harness_errors.push(format!("determinism self-check: run index {} produced different event logs in two process layouts", g));
+                    // Different event logs for one run index. With different *outcomes* the
+                    // simulator does not own a source of nondeterminism that matters: the check
+                    // is not trustworthy (exit 2). With equal outcomes the code under test (or a
+                    // thread it started itself) varies how it does its work without varying
+                    // what comes out: reported, counted, not an error.
+                    if oa.get(g) != ob.get(g) {
+                        sc_mismatch += 1;
+                        if sc_mismatch <= 3 {
+                            harness_errors.push(format!("determinism self-check: run index {} produced different results in two process layouts", g));
+                        }
+                    } else {
+                        sc_benign += 1;
                     }
                 }
             }
@@ -437,7 +451,7 @@ pub fn check(id: &str, tier: &str) -> i32 {
         if sc_compared == 0 {
             harness_errors.push("determinism self-check compared nothing".to_string());
         }
-        println!("simharness: determinism self-check: {} runs compared across 1 and {} worker processes, {} mismatches", sc_compared, n.min(selfcheck), sc_mismatch);
+        println!("simharness: determinism self-check: {} runs compared across 1 and {} worker processes, {} mismatches{}", sc_compared, n.min(selfcheck), sc_mismatch, if sc_benign > 0 { format!(" ({} runs with equal results but different event logs: the code under test varies how it works, not what comes out)", sc_benign) } else { String::new() });
     }
 
     // ---- main batch -------------------------------------------------------------------------
@@ -501,6 +515,9 @@ pub fn check(id: &str, tier: &str) -> i32 {
 
     // ---- evidence ---------------------------------------------------------------------------
     let wall = now_secs() - t0;
+    for w in stats.warnings.iter().take(5) {
+        println!("simharness: warning: {}", w);
+    }
     let zero_probes: Vec<String> = stats.probes.iter().filter(|(_, v)| **v == 0).map(|(k, _)| k.clone()).collect();
     for p in &zero_probes {
         println!("simharness: warning: probe '{}' was never hit in this run", p);
@@ -532,13 +549,14 @@ pub fn check(id: &str, tier: &str) -> i32 {
             "probes_never_hit": zero_probes,
             "distinct_states": stats.distinct_states.len(),
             "counters": stats.counters,
-            "determinism_selfcheck": {"runs_compared": sc_compared, "mismatches": sc_mismatch, "layouts": format!("1 process vs {} processes", n.min(selfcheck.max(1)))},
+            "determinism_selfcheck": {"runs_compared": sc_compared, "mismatches": sc_mismatch, "equal_results_but_different_event_logs": sc_benign, "layouts": format!("1 process vs {} processes", n.min(selfcheck.max(1)))},
             "components": {"real": e.real, "simulated": e.simulated, "stubbed": []},
             "known_findings_seen": known_seen,
             "violations_reported": reported,
             "excluded": stats.excluded,
             "workers": n,
             "harness_errors": harness_errors,
+            "warnings": stats.warnings,
         }
     });
     let evdir = std::env::var("VERIF_EVIDENCE_DIR").map(std::path::PathBuf::from).unwrap_or_else(|_| verif_dir().join("evidence"));
